@@ -531,6 +531,7 @@ struct Exec {
                 r.set("op", rd.s);
                 r.set("file", dst);
                 r.set("repeat", (every && n % every == 0) ? 2 : 1);
+                if (op.geti("no_error_code_every", 0) > 0 && n % (uint64_t)op.geti("no_error_code_every") == 1) r.set("no_error_code", true);
                 size_t before = res.viols.size();
                 opname = rd.s;
                 op_reader(r);
@@ -641,15 +642,28 @@ struct Exec {
         if (trunc == 0) count("calls_on_complete", (uint64_t)repeat);
         if (trunc == -1) count("calls_unclassified", (uint64_t)repeat);
 
+        // the error code is an optional out-parameter of these readers ("if not NULL ..."): without it the
+        // verdict rests on what is returned (an empty library / map for a file that is not complete)
+        const bool no_ec = op.getb("no_error_code");
+        if (no_ec) {
+            ctx.set("error_code_pointer", "null");
+            count("reader_calls_without_error_code", (uint64_t)repeat);
+        }
         for (int it = 0; it < repeat; it++) {
             ErrorCode ec = ErrorCode::NoError;
+            ErrorCode* ecp = no_ec ? NULL : &ec;
             bool returned = false;
             if (reader == "read_gds") {
                 Library lib = {};
                 returned = guarded([&]() {
-                    lib = read_gds(file.c_str(), op.getd("unit", 0), op.getd("tol", 0), NULL, &ec);
+                    lib = read_gds(file.c_str(), op.getd("unit", 0), op.getd("tol", 0), NULL, ecp);
                 });
-                if (returned) {
+                if (returned && no_ec) {
+                    if (trunc == 1 && lib.cell_array.count != 0)
+                        viol("C18", "truncated_read_as_complete",
+                             "read_gds (no error code requested) returned " + std::to_string(lib.cell_array.count) + " cells for a file cut at byte " + std::to_string(flen), ctx);
+                    guarded([&]() { lib.free_all(); });
+                } else if (returned) {
                     if (trunc == 1 && ec == ErrorCode::NoError)
                         viol("C18", "truncated_read_as_complete",
                              "read_gds returned NoError for a file cut at byte " + std::to_string(flen) +
@@ -660,13 +674,16 @@ struct Exec {
                 }
             } else if (reader == "read_rawcells") {
                 Map<RawCell*> m = {};
-                returned = guarded([&]() { m = read_rawcells(file.c_str(), &ec); });
+                returned = guarded([&]() { m = read_rawcells(file.c_str(), ecp); });
                 if (returned) {
-                    if (trunc == 1 && ec == ErrorCode::NoError)
+                    if (no_ec && trunc == 1 && m.count != 0)
+                        viol("C18", "truncated_read_as_complete",
+                             "read_rawcells (no error code requested) returned " + std::to_string(m.count) + " cells for a file cut at byte " + std::to_string(flen), ctx);
+                    if (!no_ec && trunc == 1 && ec == ErrorCode::NoError)
                         viol("C18", "truncated_read_as_complete",
                              "read_rawcells returned NoError (" + std::to_string(m.count) +
                                  " cells) for a file cut at byte " + std::to_string(flen), ctx);
-                    if (trunc == 0 && ec != ErrorCode::NoError)
+                    if (!no_ec && trunc == 0 && ec != ErrorCode::NoError)
                         viol("C17", "complete_file_rejected", std::string("read_rawcells returned ") + bridge::error_name(ec) + " for a complete file", ctx);
                     guarded([&]() {
                         for (MapItem<RawCell*>* item = m.next(NULL); item; item = m.next(item)) {
@@ -701,8 +718,10 @@ struct Exec {
                     viol("C17", "complete_file_rejected", std::string("gds_units returned ") + bridge::error_name(ec) + " for a complete file", ctx);
             } else if (reader == "gds_timestamp") {
                 tm t = {};
-                returned = guarded([&]() { t = gds_timestamp(file.c_str(), NULL, &ec); });
-                if (returned && trunc >= 0 && ec == ErrorCode::NoError) {
+                returned = guarded([&]() { t = gds_timestamp(file.c_str(), NULL, ecp); });
+                // without an error code a zeroed tm is the only sign of failure
+                bool all_zero = t.tm_year == 0 && t.tm_mon == 0 && t.tm_mday == 0 && t.tm_hour == 0 && t.tm_min == 0 && t.tm_sec == 0;
+                if (returned && trunc >= 0 && ec == ErrorCode::NoError && !(no_ec && all_zero)) {
                     gdspeer::Decoded& d = truth(ref);
                     std::array<uint16_t, 6> got = ts6(t), want;
                     for (int i = 0; i < 6; i++) want[i] = d.lib_ts[i];
@@ -735,10 +754,12 @@ struct Exec {
             } else if (reader == "oas_validate") {
                 uint32_t sig = 0;
                 bool ok = false;
-                returned = guarded([&]() { ok = oas_validate(file.c_str(), &sig, &ec); });
+                returned = guarded([&]() { ok = oas_validate(file.c_str(), &sig, ecp); });
                 int scheme = finfo[ref].oas_sig;
                 ctx.set("signed", scheme);
-                if (returned && trunc == 1 && scheme != 0 && ok && ec == ErrorCode::NoError)
+                // documented: true also means "no validation data", told apart by the error code or, without
+                // one, by the signature reported as zero
+                if (returned && trunc == 1 && scheme != 0 && ok && (no_ec ? sig != 0 : ec == ErrorCode::NoError))
                     viol("C18", "truncated_signature_accepted",
                          "oas_validate reported a matching signature for a signed file cut at byte " + std::to_string(flen) + " of " + std::to_string(W->fs.bytes(ref).size()), ctx);
                 if (returned && trunc == 0 && oas && scheme != 0 && !(ok && ec == ErrorCode::NoError))
@@ -1731,6 +1752,20 @@ struct Exec {
         ctx.set("writer", fi.writer);
         tm nt;
         if (!tm_from_json(op.at("ts"), nt)) sim::civil_from_time(W->clock.now, &nt);
+        // "all timestamps" includes the one the file already carries somewhere: the library's own (while
+        // structures copied from elsewhere carry another) or one structure's
+        std::string from = op.gets("ts_from");
+        if (from == "library" || (from == "structure" && !d.str_ts.empty())) {
+            const std::array<uint16_t, 12>& t = from == "library" ? d.lib_ts : d.str_ts[(size_t)op.geti("ts_index", 0) % d.str_ts.size()];
+            nt = tm{};
+            nt.tm_year = (int)t[0] - 1900;
+            nt.tm_mon = (int)t[1] - 1;
+            nt.tm_mday = t[2];
+            nt.tm_hour = t[3];
+            nt.tm_min = t[4];
+            nt.tm_sec = t[5];
+            count("stamp_with_a_timestamp_already_in_the_file");
+        }
         StampWatch sw;
         sw.self = this;
         sw.file = file;
@@ -1883,7 +1918,7 @@ struct Exec {
             if (git == got.cells.end()) continue;
             canon::CCell& ec = E.c.cells[mc.name];
             for (auto& p : mc.polys) {
-                if (p.pts.size() < 8) continue;
+                if (p.pts.size() < 5) continue;  // the detector wants more than four vertices
                 std::vector<canon::IPt> pts;
                 for (auto& q : p.pts) pts.push_back(canon::rgrid(q));
                 bool ok;
@@ -1893,7 +1928,7 @@ struct Exec {
                 if (std::find(git->second.polys.begin(), git->second.polys.end(), exact) != git->second.polys.end()) continue;
                 for (auto& kv : git->second.poly_pts) {
                     const std::vector<canon::IPt>& f = kv.second;
-                    if (f.size() < 6) continue;
+                    if (f.size() < 3) continue;
                     std::string cand = canon::poly_line(p.layer, p.dtype, f, canon::rep_grid(p.rep), props, ok);
                     if (cand != kv.first) continue;  // tag, repetition or properties differ
                     if (std::find(ec.polys.begin(), ec.polys.end(), cand) != ec.polys.end()) continue;  // already claimed
@@ -2120,48 +2155,102 @@ struct Exec {
         bool empty() const { return x0 > x1; }
     };
 
-    // all vertices of a cell's polygons and label origins, hierarchy flattened, in grid units
-    void collect_points(const model::MLib& lib, const model::MCell& c, std::vector<std::pair<double, double>>& out, bool& exact, bool& usable, int depth) {
-        if (depth > 16) return;
-        if (!c.paths.empty()) usable = false;
-        for (auto& p : c.polys)
-            if (p.hint == 1) usable = false;  // a CIRCLE record approximates the original within the tolerance
-        for (auto& p : c.polys)
-            for (auto& o : canon::rep_offsets(p.rep))
-                for (auto& q : p.pts) out.push_back({(q.x + o.x) / 10.0, (q.y + o.y) / 10.0});
+    // Extent of a cell with its hierarchy, in grid units: the bounding box of any transformed copy of a point
+    // set depends on its convex hull only, and the hull of a repeated copy is the hull of (hull + hull of the
+    // offsets).  One hull per cell, memoised: linear in the size of the library however the cells refer to
+    // each other (a flattened enumeration is exponential in the depth of the reference graph).
+    typedef std::pair<double, double> P2;
+    struct CellGeo {
+        std::vector<P2> hull;
+        bool exact = true;   // only right-angle rotations and integer magnifications below
+        bool usable = true;  // no paths or CIRCLE records below (their outlines are not reconstructed here)
+    };
+    static std::vector<P2> hull_of(std::vector<P2> v) {
+        std::sort(v.begin(), v.end());
+        v.erase(std::unique(v.begin(), v.end()), v.end());
+        if (v.size() < 3) return v;
+        auto cross = [](const P2& o, const P2& a, const P2& b) { return (a.first - o.first) * (b.second - o.second) - (a.second - o.second) * (b.first - o.first); };
+        std::vector<P2> h(2 * v.size());
+        size_t k = 0;
+        for (size_t i = 0; i < v.size(); i++) {
+            while (k >= 2 && cross(h[k - 2], h[k - 1], v[i]) <= 0) k--;
+            h[k++] = v[i];
+        }
+        for (size_t i = v.size() - 1, t = k + 1; i > 0; i--) {
+            while (k >= t && cross(h[k - 2], h[k - 1], v[i - 1]) <= 0) k--;
+            h[k++] = v[i - 1];
+        }
+        h.resize(k - 1);
+        return h;
+    }
+    static std::vector<P2> offsets_hull(const model::MRep& rep) {
+        std::vector<P2> o;
+        if (rep.type == model::REP_RECT || rep.type == model::REP_REGULAR) {
+            // the corners of a lattice are its hull
+            model::Pt v1 = rep.type == model::REP_RECT ? model::Pt{rep.sp.x, 0} : rep.v1;
+            model::Pt v2 = rep.type == model::REP_RECT ? model::Pt{0, rep.sp.y} : rep.v2;
+            double c = rep.cols ? (double)(rep.cols - 1) : 0.0, r = rep.rows ? (double)(rep.rows - 1) : 0.0;
+            for (double a : {0.0, c})
+                for (double b : {0.0, r}) o.push_back({(a * v1.x + b * v2.x) / 10.0, (a * v1.y + b * v2.y) / 10.0});
+        } else {
+            for (auto& q : canon::rep_offsets(rep)) o.push_back({q.x / 10.0, q.y / 10.0});
+        }
+        return hull_of(o);
+    }
+    const CellGeo& cell_geo(const model::MLib& lib, const model::MCell& c, std::map<std::string, CellGeo>& memo) {
+        auto it = memo.find(c.name);
+        if (it != memo.end()) return it->second;
+        CellGeo g;
+        std::vector<P2> pts;
+        if (!c.paths.empty()) g.usable = false;
+        for (auto& p : c.polys) {
+            if (p.hint == 1) g.usable = false;  // a CIRCLE record approximates the original within the tolerance
+            std::vector<P2> oh = offsets_hull(p.rep);
+            for (auto& o : oh)
+                for (auto& q : p.pts) pts.push_back({q.x / 10.0 + o.first, q.y / 10.0 + o.second});
+        }
         for (auto& l : c.labels)
-            for (auto& o : canon::rep_offsets(l.rep)) out.push_back({(l.origin.x + o.x) / 10.0, (l.origin.y + o.y) / 10.0});
+            for (auto& o : offsets_hull(l.rep)) pts.push_back({l.origin.x / 10.0 + o.first, l.origin.y / 10.0 + o.second});
         for (auto& r : c.refs) {
             const model::MCell* t = lib.find(r.target);
-            if (!t) continue;
-            std::vector<std::pair<double, double>> sub;
-            collect_points(lib, *t, sub, exact, usable, depth + 1);
+            if (!t || t == &c) continue;
+            const CellGeo& sub = cell_geo(lib, *t, memo);
+            if (!sub.usable) g.usable = false;
+            if (!sub.exact) g.exact = false;
             double q = r.rot_deg / 90.0;
             bool right = q == floor(q);
-            if (!right || r.mag != floor(r.mag)) exact = false;
+            if (!right || r.mag != floor(r.mag)) g.exact = false;
             double a = r.rot_deg * (M_PI / 180.0), ca = cos(a), sa = sin(a);
             if (right) {
                 int k = ((int)llround(q) % 4 + 4) % 4;
                 ca = k == 0 ? 1 : (k == 2 ? -1 : 0);
                 sa = k == 1 ? 1 : (k == 3 ? -1 : 0);
             }
-            for (auto& o : canon::rep_offsets(r.rep))
-                for (auto& pt : sub) {
+            std::vector<P2> oh = offsets_hull(r.rep);
+            for (auto& o : oh)
+                for (auto& pt : sub.hull) {
                     double x = pt.first * r.mag, y = pt.second * r.mag;
                     if (r.xrefl) y = -y;
-                    out.push_back({x * ca - y * sa + (r.origin.x + o.x) / 10.0, x * sa + y * ca + (r.origin.y + o.y) / 10.0});
+                    pts.push_back({x * ca - y * sa + r.origin.x / 10.0 + o.first, x * sa + y * ca + r.origin.y / 10.0 + o.second});
                 }
         }
+        g.hull = hull_of(pts);
+        return memo[c.name] = g;
     }
 
-    static bool has_by_name(const model::MLib& m, const std::string& cell, int depth) {
+    static bool has_by_name(const model::MLib& m, const std::string& cell, std::map<std::string, bool>& memo) {
+        auto it = memo.find(cell);
+        if (it != memo.end()) return it->second;
+        memo[cell] = false;
         const model::MCell* c = m.find(cell);
-        if (!c || depth > 16) return false;
-        for (auto& r : c->refs) {
-            if (r.how == 1 && m.in_lib(r.target)) return true;
-            if (has_by_name(m, r.target, depth + 1)) return true;
-        }
-        return false;
+        bool r2 = false;
+        if (c)
+            for (auto& r : c->refs) {
+                if (r.how == 1 && m.in_lib(r.target)) r2 = true;
+                if (!r2 && has_by_name(m, r.target, memo)) r2 = true;
+                if (r2) break;
+            }
+        return memo[cell] = r2;
     }
 
     const model::MVal* std_val(const std::vector<model::MProp>& ps, const char* name, size_t idx) {
@@ -2253,11 +2342,13 @@ struct Exec {
         if (flags & OASIS_CONFIG_PROPERTY_BOUNDING_BOX) {
             const model::MVal* av = std_val(d.file_props, "S_BOUNDING_BOXES_AVAILABLE", 0);
             if (!av || av->u != 2) viol(prop, "s_bounding_boxes_available", "S_BOUNDING_BOXES_AVAILABLE is missing or not 2", ctx);
+            std::map<std::string, CellGeo> geo_memo;
+            std::map<std::string, bool> by_name_memo;
             for (size_t i = 0; i < d.cells.size(); i++) {
                 const oaspeer::CellFacts& cf = d.cells[i];
-                std::vector<std::pair<double, double>> pts;
-                bool exact = true, usable = true;
-                collect_points(d.lib, d.lib.cells[i], pts, exact, usable, 0);
+                const CellGeo& geo = cell_geo(d.lib, d.lib.cells[i], geo_memo);
+                const std::vector<P2>& pts = geo.hull;
+                bool exact = geo.exact, usable = geo.usable;
                 if (!usable) {
                     count("bbox_skipped_paths_or_circles");
                     continue;
@@ -2275,7 +2366,7 @@ struct Exec {
                 }
                 count("bbox_checked");
                 if (bb.empty()) continue;  // gdstk writes (0,0,0,0) for empty cells; the format leaves that open
-                if (has_by_name(m, cf.name, 0)) count("bbox_with_by_name_reference");
+                if (has_by_name(m, cf.name, by_name_memo)) count("bbox_with_by_name_reference");
                 auto val = [](const model::MVal* v) { return v->kind == 1 ? (double)v->i : (double)v->u; };
                 double tol = exact ? 0.0 : 1.0;
                 double ex0 = exact ? bb.x0 : round(bb.x0), ey0 = exact ? bb.y0 : round(bb.y0);
@@ -2285,7 +2376,7 @@ struct Exec {
                     snprintf(buf, sizeof buf, "S_BOUNDING_BOX of cell '%s' says (%g,%g)+(%g,%g), the decoded content spans (%g,%g)-(%g,%g)", cf.name.c_str(),
                              val(x), val(y), val(w), val(h), bb.x0, bb.y0, bb.x1, bb.y1);
                     ctx.set("exact_transforms", exact);
-                    ctx.set("by_name_reference_below", has_by_name(m, cf.name, 0));
+                    ctx.set("by_name_reference_below", has_by_name(m, cf.name, by_name_memo));
                     viol(prop, "s_bounding_box", buf, ctx);
                 }
             }
@@ -2362,7 +2453,7 @@ struct Exec {
                     if (!q.simple && q.impl == 0) count("model_nonsimple_flexpaths");
                 }
                 for (auto& q : c.polys) {
-                    if (q.pts.size() > 8190) count("model_polygons_above_8190_points");
+                    if (q.pts.size() >= 8189) count("model_polygons_of_8189_points_or_more");
                     if (q.hint == 1) count("model_circle_candidates");
                     if (q.pts.size() == 3) count("model_triangles");
                 }
